@@ -41,6 +41,10 @@ type Sim struct {
 	SetHistory [][]string // consensus sets in force over time (peer ids)
 	badSince   int        // rejected Byzantine submissions since the last committed block
 	LastTrace  *BlockTrace
+	// BeforeCommit, if set, is called with the block's trace after the generic oracles ran and
+	// BEFORE the block is committed: only then do TxTrace.Pre/.Post read the true per-transaction
+	// states (views fall through to the committed ledger for keys the prefix did not write).
+	BeforeCommit func(*BlockTrace)
 	forceFail  map[common.Uint256]bool // transactions that hook H3 fails after their handler ran
 }
 
